@@ -14,12 +14,13 @@ import os
 from gfv import dbsnap
 from gfv import textmodel as tm
 from gfv.core import Failure, HarnessError
-from gfv.refmodels import MergeModel, ModelAmbiguous, ModelError, gff_links
+from gfv.refmodels import MergeModel, ModelAmbiguous, ModelError, gff_links, gtf_links_factory
 
 PROP = "C10"
 RULE = (
-    "(machine) random histories of up to 25 (quick) / 50 (thorough) steps over update(records from a 14-record pool that "
-    "shares ids and Parent values up to depth 4; strategy in the five; input as list, generator or text path; make_backup), "
+    "(machine) random histories of up to 25 (quick) / 50 (thorough) steps on a GFF3 database (two thirds) or a GTF-importer "
+    "database with inference off (one third) over update(records from a 15-/12-record pool that shares ids and Parent / "
+    "transcript / gene values, GFF3 up to depth 4; strategy in the five; input as list, generator or text path; make_backup), "
     "delete(ids / Features / missing id; make_backup), add_relation(fresh pair, level 1/2), reopen, empty update, and a "
     "faulty update whose source raises after k items; snapshot compared with the model after every step. (exhaustive) all "
     "operation sequences up to depth 3 (quick) / 4 (thorough) over a fixed 8-operation alphabet. Non-trivial history = a "
@@ -58,6 +59,37 @@ POOL = [
     R("exon", 300, 350, [["ID", ["e9"]], ["Parent", ["ghost1", "m1"]]]),  # 14 a Parent naming no stored feature
 ]
 SEED = [0, 1, 2]
+
+DG = {"style": "gtf", "sep": "; ", "trailing": True, "repeated": False}
+
+
+def G(ft, start, end, attrs, strand="+"):
+    return {"cols": ["chr2", "src", ft, str(start), str(end), ".", strand, "."], "attrs": attrs, "extras": []}
+
+
+# GTF-importer pool (id_spec="ID", inference disabled): relations come from transcript_id / gene_id
+GTF_POOL = [
+    G("exon", 10, 50, [["gene_id", ["g1"]], ["transcript_id", ["t1"]], ["ID", ["x1"]]]),  # 0
+    G("exon", 60, 90, [["gene_id", ["g1"]], ["transcript_id", ["t1"]], ["ID", ["x2"]]]),  # 1
+    G("CDS", 12, 48, [["gene_id", ["g1"]], ["transcript_id", ["t1"]], ["note", ["auto"]]]),  # 2 no ID -> CDS_n
+    G("exon", 10, 50, [["gene_id", ["g1"]], ["transcript_id", ["t1"]], ["ID", ["x1"]], ["note", ["x"]]]),  # 3 equal columns
+    G("exon", 12, 50, [["gene_id", ["g1"]], ["transcript_id", ["t1"]], ["ID", ["x1"]], ["note", ["y"]]]),  # 4 different columns
+    G("exon", 10, 50, [["gene_id", ["g1"]], ["transcript_id", ["t2"]], ["ID", ["x1"]], ["note", ["z"]]]),  # 5 equal columns, other transcript
+    G("exon", 100, 150, [["gene_id", ["g1"]], ["transcript_id", ["t2"]], ["note", ["auto"]]]),  # 6 no ID -> exon_n
+    G("exon", 500, 550, [["gene_id", ["g2"]], ["transcript_id", ["t3"]], ["ID", ["x3"]]]),  # 7
+    G("transcript", 10, 150, [["gene_id", ["g1"]], ["transcript_id", ["t1"]], ["ID", ["t1"]]]),  # 8 explicit transcript line
+    G("gene", 10, 150, [["gene_id", ["g1"]], ["ID", ["g1"]]]),  # 9 explicit gene line
+    G("start_codon", 12, 14, [["gene_id", ["g1"]], ["transcript_id", ["t1"]], ["note", ["auto"]]]),  # 10 no ID
+    G("exon", 500, 550, [["gene_id", ["g2"]], ["transcript_id", ["t3"]], ["ID", ["x3"]], ["note", ["a", "b"]]]),  # 11 equal columns
+]
+
+FLAVORS = {
+    "gff3": {"pool": POOL, "seed": SEED, "dialect": D, "links": gff_links, "closure": True, "kw": {},
+             "header": "##gff-version 3\n", "types": ("gene", "mRNA", "exon", "CDS", "part")},
+    "gtf": {"pool": GTF_POOL, "seed": [0, 1, 2], "dialect": DG, "links": gtf_links_factory(), "closure": False,
+            "kw": {"id_spec": "ID", "disable_infer_genes": True, "disable_infer_transcripts": True},
+            "header": "", "types": ("gene", "transcript", "exon", "CDS", "start_codon")},
+}
 STRATEGIES = ["error", "warning", "replace", "create_unique", "merge"]
 
 
@@ -73,18 +105,23 @@ class Faulty(Exception):
 class History(object):
     """Applies operations to the real database and the model; .step(op) -> Failure | None."""
 
-    def __init__(self, ctx):
+    def __init__(self, ctx, flavor="gff3"):
         import gffutils
 
         self.gffutils = gffutils
         self.ctx = ctx
+        self.flavor = flavor
+        self.F = FLAVORS[flavor]
+        self.pool = self.F["pool"]
         self.dbfn = ctx.path("hist.db")
-        text = "##gff-version 3\n" + "\n".join(tm.render_line(POOL[i], D) for i in SEED) + "\n"
-        self.db = gffutils.create_db(text, self.dbfn, from_string=True)
-        self.m = MergeModel("error", links=gff_links)
+        text = self.F["header"] + "\n".join(tm.render_line(self.pool[i], self.F["dialect"]) for i in self.F["seed"]) + "\n"
+        self.db = gffutils.create_db(text, self.dbfn, from_string=True, **self.F["kw"])
+        self.m = MergeModel("error", links=self.F["links"], level2_closure=self.F["closure"])
         self.rel = set()
-        for i in SEED:
-            rec = _rec(POOL[i])
+        for i in self.F["seed"]:
+            rec = _rec(self.pool[i])
+            if rec["id"] is None:
+                rec["id"] = self.m._fresh(rec["cols"][2])
             fid = self.m.add(rec)
             self.rel |= self.m._line_links(fid, rec)
         self._close2()
@@ -99,6 +136,8 @@ class History(object):
 
     # ---- model helpers
     def _close2(self):
+        if not self.F["closure"]:
+            return
         c1 = {}
         for p, c, l in self.rel:
             if l == 1:
@@ -142,7 +181,7 @@ class History(object):
         n_total = self.db.count_features_of_type()
         if n_total != len(self.m.store):
             return Failure("%s: count_features_of_type() = %r, %d features stored" % (what, n_total, len(self.m.store)), sig={"kind": "count"})
-        for ft in ("gene", "mRNA", "exon", "CDS", "part"):
+        for ft in self.F["types"]:
             want = sum(1 for mm in self.m.store.values() if mm["cols"][2] == ft)
             if self.db.count_features_of_type(ft) != want:
                 return Failure("%s: count_features_of_type(%r) = %r, %d stored" % (what, ft, self.db.count_features_of_type(ft), want),
@@ -241,22 +280,31 @@ class History(object):
         if p == c or (p, c, lvl) in self.rel:
             self.excluded += 1
             return None
-        self.db.add_relation(p if op["by_id"] else self.db[p], c if op["by_id"] else self.db[c], lvl)
+        kw = {}
+        if op.get("child_func") and "ID" in self.m.store[p]["attrs"]:
+            # the documented use: copy the parent's ID into the child's Parent attribute (what merge_all does)
+            from gffutils.interface import assign_child
+
+            kw["child_func"] = assign_child
+            self.m.store[c]["attrs"]["Parent"] = list(self.m.store[p]["attrs"]["ID"])
+            self.flags.add("add_relation-child_func")
+        self.db.add_relation(p if op["by_id"] else self.db[p], c if op["by_id"] else self.db[c], lvl, **kw)
         self.rel.add((p, c, lvl))
         return self.compare("after add_relation(%r, %r, %d)" % (p, c, lvl))
 
     def _update(self, op, before):
         from gffutils.feature import feature_from_line
 
-        recs = [POOL[i] for i in op["recs"]]
+        recs = [self.pool[i % len(self.pool)] for i in op["recs"]]
         strategy = op["strategy"]
         if strategy == "replace":
             for r in recs:
                 rr = _rec(r)
-                if rr["id"] in self.m.store and self.m.store[rr["id"]]["attrs"].get("Parent") != rr["attrs"].get("Parent"):
+                old = self.m.store.get(rr["id"])
+                if old is not None and any(old["attrs"].get(k) != rr["attrs"].get(k) for k in ("Parent", "transcript_id", "gene_id")):
                     self.excluded += 1  # D11 of C05
                     return None
-        lines = [tm.render_line(r, D) for r in recs]
+        lines = [tm.render_line(r, self.F["dialect"]) for r in recs]
         faulty = op["op"] == "faulty_update"
         k = op.get("k", 0)
 
@@ -299,7 +347,7 @@ class History(object):
             return None
         raised = None
         try:
-            self.db.update(data, make_backup=op["backup"], merge_strategy=strategy)
+            self.db.update(data, make_backup=op["backup"], merge_strategy=strategy, **self.F["kw"])
         except Faulty as e:
             raised = e
         except ValueError as e:
@@ -350,8 +398,8 @@ class History(object):
         self.db = None
 
 
-def run_history(ops, ctx):
-    h = History(ctx)
+def run_history(ops, ctx, flavor="gff3"):
+    h = History(ctx, flavor)
     try:
         for op in ops:
             bad = h.step(op)
@@ -369,7 +417,7 @@ class _Base(object):
         return ("delete" in kinds and "update" in kinds) or "faulty_update" in kinds or kinds.count("update") >= 2, []
 
     def check(self, case, ctx):
-        bad, _ = run_history(case["ops"], ctx)
+        bad, _ = run_history(case["ops"], ctx, case.get("flavor", "gff3"))
         return bad
 
 
@@ -385,7 +433,7 @@ class MachineLeg(_Base):
         import hypothesis
         from hypothesis import HealthCheck, Phase, settings
         from hypothesis import strategies as st
-        from hypothesis.stateful import RuleBasedStateMachine, invariant, precondition, rule, run_state_machine_as_test
+        from hypothesis.stateful import RuleBasedStateMachine, initialize, precondition, rule, run_state_machine_as_test
 
         from gfv import core
 
@@ -403,10 +451,17 @@ class MachineLeg(_Base):
                 if state["t_fail"] is not None and now - state["t_fail"] > shrink_budget:
                     raise core._StopShrinking()
                 ctx.cleanup()
-                self.h = None if self.skip else History(ctx)
+                self.h = None
+                self.flavor = None
+
+            @initialize(flavor=st.sampled_from(["gff3", "gff3", "gtf"]))
+            def start(self, flavor):
+                self.flavor = flavor
+                if not self.skip:
+                    self.h = History(ctx, flavor)
 
             def _do(self, op):
-                if self.skip:
+                if self.skip or self.h is None:
                     return
                 try:
                     bad = self.h.step(op)
@@ -417,7 +472,7 @@ class MachineLeg(_Base):
                         raise core.HarnessError("history step raised outside the library: %r\nops=%s" % (e, core.jdump(self.h.ops)[:1500]))
                     bad = core.raised_failure(e, "step %r" % (op,))
                 if bad is not None:
-                    if rec.report({"ops": list(self.h.ops)}, bad) is not None:
+                    if rec.report({"flavor": self.flavor, "ops": list(self.h.ops)}, bad) is not None:
                         if state["t_fail"] is None:
                             state["t_fail"] = time.monotonic()
                         raise AssertionError(bad.msg)
@@ -433,9 +488,9 @@ class MachineLeg(_Base):
             def delete(self, which, how, backup):
                 self._do({"op": "delete", "targets": which, "as": how, "backup": backup})
 
-            @rule(p=st.integers(0, 20), c=st.integers(0, 20), level=st.sampled_from([1, 2]), by_id=st.booleans())
-            def add_relation(self, p, c, level, by_id):
-                self._do({"op": "add_relation", "parent": p, "child": c, "level": level, "by_id": by_id})
+            @rule(p=st.integers(0, 20), c=st.integers(0, 20), level=st.sampled_from([1, 2]), by_id=st.booleans(), child_func=st.booleans())
+            def add_relation(self, p, c, level, by_id, child_func):
+                self._do({"op": "add_relation", "parent": p, "child": c, "level": level, "by_id": by_id, "child_func": child_func})
 
             @rule()
             def reopen(self):
@@ -445,7 +500,7 @@ class MachineLeg(_Base):
             def update_empty(self, form, backup):
                 self._do({"op": "update_empty", "form": form, "backup": backup})
 
-            @precondition(lambda self: self.skip or (not self.h.ended and len(self.h.ops) >= 4))
+            @precondition(lambda self: self.skip or (self.h is not None and not self.h.ended and len(self.h.ops) >= 4))
             @rule(recs=st.lists(st.integers(0, len(POOL) - 1), min_size=1, max_size=4), k=st.integers(0, 4),
                   strategy=st.sampled_from(["create_unique", "merge", "warning"]), backup=st.booleans(), really=st.integers(0, 2))
             def faulty_update(self, recs, k, strategy, backup, really):
@@ -456,8 +511,8 @@ class MachineLeg(_Base):
 
             def teardown(self):
                 if self.h is not None:
-                    case = {"ops": list(self.h.ops)}
-                    rec.note_case(case, self.h.nontrivial(), sorted("history:" + f for f in self.h.flags))
+                    case = {"flavor": self.flavor, "ops": list(self.h.ops)}
+                    rec.note_case(case, self.h.nontrivial(), sorted("history:" + f for f in self.h.flags) + ["flavor=" + self.flavor])
                     rec.excluded["replace-changes-parent or duplicate add_relation"] = rec.excluded.get(
                         "replace-changes-parent or duplicate add_relation", 0) + self.h.excluded
                     self.h.close()
